@@ -2150,3 +2150,12 @@ void svt_av1_find_best_ref_mvs_from_stack(int allow_hp,
     *near_mv = svt_av1_get_ref_mv_from_stack(ref_idx, ref_frames, 1, ref_mv_stack /*mbmi_ext*/, xd);
     lower_mv_precision(&near_mv->as_mv, allow_hp, is_integer);
 }
+
+#ifdef SVT_AV1_VERIF
+/* verification hook H7: exported one-line wrapper around this unit's static
+ * order-hint distance helper (white-box harness /verif/harness/reldist.c). */
+int svt_verif_get_relative_dist_amvp(const OrderHintInfo *oh, int a, int b);
+int svt_verif_get_relative_dist_amvp(const OrderHintInfo *oh, int a, int b) {
+    return get_relative_dist(oh, a, b);
+}
+#endif /* SVT_AV1_VERIF */
